@@ -121,6 +121,24 @@ func checkC09(c C09Case, st *evid.Stats) error {
 		st.Exclude("stop candidate is a value of the preceding option, a known option or a command name there")
 		return nil
 	}
+	// a bundle whose leading letters are known options is partly interpreted before the stop hits: not a stop
+	// token in the statement's sense (generation aid: count the option hits with and without the candidate)
+	m1, m2 := Model(nro, c.Pre), Model(nro, append(append([]string{}, c.Pre...), stop))
+	if m1.Unspecified != "" || m2.Unspecified != "" {
+		st.Exclude("unspecified: " + m1.Unspecified + m2.Unspecified)
+		return nil
+	}
+	h1, h2 := 0, 0
+	for _, h := range m1.Hits {
+		h1 += len(h)
+	}
+	for _, h := range m2.Hits {
+		h2 += len(h)
+	}
+	if h1 != h2 {
+		st.Exclude("stop candidate contains a known option (bundle with known leading letters)")
+		return nil
+	}
 	R := Run(c.Spec, full, RunOpts{Dispatch: true})
 	AD := Run(nro, c.Pre, RunOpts{Dispatch: true})
 	st.Eval()
